@@ -224,6 +224,10 @@ def check(ctx) -> None:
     from . import c05
 
     c05.rule_p1(ctx, Pipeline(ctx), "C18-Z7", only_duplicates=True)
+    # Z9: the statistics of a batch served from the cache were computed under the settings in force (shared with C12-K1)
+    from . import c12
+
+    c12.rule_k1(ctx, "C18-Z9")
     pl = Pipeline(ctx)
     prog = ctx.prog
     f = pl.func
